@@ -876,7 +876,7 @@ func (s *flakyStore) Store(c *lungo.Catalog) error {
 	return s.inner.Store(c)
 }
 
-func dumpCatalog(c *lungo.Catalog) string {
+func fsDumpCatalog(c *lungo.Catalog) string {
 	var names []string
 	for h := range c.Namespaces {
 		if h == lungo.Oplog {
@@ -940,7 +940,7 @@ func oracleFailingStore(r *rng, n int, st *oracleStats) []oracleFailure {
 			}
 			ws.mode = mode
 			before := engine.Catalog()
-			beforeDump := dumpCatalog(before)
+			beforeDump := fsDumpCatalog(before)
 			calls := ws.calls
 			ctx, cancel := context.WithTimeout(context.Background(), 2*time.Second)
 			id := int32(r.intn(6))
@@ -980,12 +980,12 @@ func oracleFailingStore(r *rng, n int, st *oracleStats) []oracleFailure {
 				}
 				if engine.Catalog() != before {
 					fail("Engine.Catalog() replaced after a failed commit", detail)
-				} else if dumpCatalog(engine.Catalog()) != beforeDump {
+				} else if fsDumpCatalog(engine.Catalog()) != beforeDump {
 					fail("contents of Engine.Catalog() changed after a failed commit", detail)
 				}
 				if mode == 2 {
 					// the file now holds the state being committed while the old one stays visible
-					if reloaded, err := fstore.Load(); err == nil && dumpCatalog(reloaded) != beforeDump {
+					if reloaded, err := fstore.Load(); err == nil && fsDumpCatalog(reloaded) != beforeDump {
 						st.Dist["divergence:visible-old-durable-new"]++
 					}
 				}
@@ -1007,7 +1007,7 @@ func oracleFailingStore(r *rng, n int, st *oracleStats) []oracleFailure {
 				reloaded, err := fstore.Load()
 				if err != nil {
 					fail("store file unloadable after a commit that followed a failed one", detail)
-				} else if dumpCatalog(reloaded) != dumpCatalog(engine.Catalog()) {
+				} else if fsDumpCatalog(reloaded) != fsDumpCatalog(engine.Catalog()) {
 					fail("persisted state differs from the visible state after a successful commit", detail)
 				}
 			} else if stored && opErr == nil {
@@ -1016,7 +1016,7 @@ func oracleFailingStore(r *rng, n int, st *oracleStats) []oracleFailure {
 					reloaded, err := fstore.Load()
 					if err != nil {
 						fail("store file unloadable after a successful commit", detail)
-					} else if dumpCatalog(reloaded) != dumpCatalog(engine.Catalog()) {
+					} else if fsDumpCatalog(reloaded) != fsDumpCatalog(engine.Catalog()) {
 						fail("persisted state differs from the visible state after a successful commit", detail)
 					}
 				}
